@@ -706,9 +706,7 @@ class C10(Check):
         from pacti.terms.polyhedra.serializer import polyhedral_termlist_from_string
 
         n_parse = 0
-        for sx in pool[:400]:
-            if sx.startswith("-") or float(sx) == 0:
-                continue
+        for sx in [x for x in pool if not x.startswith("-") and float(x) != 0][:400]:
             try:
                 tl = polyhedral_termlist_from_string(sx + " x <= 1")
                 cf = list(tl[0].variables.values())[0]
